@@ -211,7 +211,7 @@ Proof.
       * destruct (lookup_var x (m_scopes m1)) as [c|]; [|apply Rh_fail_here].
         eapply Rh_bind; [apply eval_indexes_h|]. intros [path m2] _. simpl.
         unfold here. destruct (stmt_at code (m_pc m2)); cbn [bind]; [|exact I].
-        destruct (lookup_var x (m_scopes m2)) as [c2|]; [|apply Rh_fail_here].
+        destruct (lookup_var x (m_scopes m2)) as [c2|]; [|exact I].
         eapply (Rh_bind _ (fun x => x)); [apply assign_path_h|]. intros m3 _. simpl. apply Qrefl.
   - eapply Rh_bind; [apply Hev|]. intros [v m1] _. simpl. apply Qrefl.
   - simpl. apply Qrefl.
